@@ -10,11 +10,13 @@ import canmatrix.formats
 from lib import frames as F
 
 PID = "C10"
+EXTRA_PROPS = ("C10b",)
 RULE = ("case = a history: prelude (2-3 matrices built by add_frame and/or by the DBC reader, 3-5 frame objects over a small "
         "universe of ids {0x10, 0x20, 0x10x, 0x18FEF100x, 0x0CFEF102x, ...} (x = extended; the same number occurs in both formats) and names {A,B,C}, warm-up lookups that fill the memo) + a body "
         "+ a closing sweep of every lookup (by id, name, PGN) on every matrix. quick: every body of length <= 2 over the op "
         "alphabet (del/remove/rename frame, id change through the handle, add_ecu, copy_frame both directions, merge, deepcopy, "
-        "reader-style append, interleaved lookups) + 1500 random bodies of length <= 40; thorough: every body of length <= 3 + "
+        "reader-style append, interleaved lookups) + 1500 random bodies of length <= 40 + 3000 focused bodies (3..9 operations about one matrix, two frame objects and "
+        "two identifiers: look up, change in place, remove, change back, look up again); thorough: every body of length <= 3 + "
         "20000 random bodies of length <= 60. Non-trivial = distinct history whose body contains an edit and a lookup follows it.")
 EXHAUSTIVE = {"quick": False, "thorough": False}
 PARTIAL = ["frame_by_header_id (a plain scan) is exercised on snapshots of a matrix (case 'hdr'), not inside the edit histories",
@@ -139,6 +141,45 @@ def random_body(rng, nmats, nobjs, maxlen):
     return body
 
 
+def focused_body(rng, nmats, nobjs):
+    """a short history about one matrix (sometimes two), one or two frame objects and two identifiers: deep interactions
+    (look up, change the identifier in place, remove, change it back, look up again) that a uniform choice rarely composes"""
+    m = rng.randrange(nmats)
+    m2 = rng.randrange(nmats)
+    hs = [rng.randrange(nobjs), rng.randrange(nobjs)]
+    keys = rng.sample(IDS, 2)
+    names = rng.sample(NAMES, 2)
+    body = []
+    for _ in range(rng.randint(3, 9)):
+        k = rng.random()
+        mm = m if rng.random() < 0.8 else m2
+        h = hs[0] if rng.random() < 0.75 else hs[1]
+        i, e = rng.choice(keys)
+        if k < 0.28:
+            body.append(["byId", mm, i, e])
+        elif k < 0.50:
+            body.append(["setId", h, i, e])
+        elif k < 0.60:
+            body.append(["delFrame", mm, h])
+        elif k < 0.66:
+            body.append(["removeFrame", mm, h])
+        elif k < 0.76:
+            body.append(["addFrame", mm, h])
+        elif k < 0.80:
+            body.append(["appendFrame", mm, h])
+        elif k < 0.85:
+            body.append(["byName", mm, rng.choice(names)])
+        elif k < 0.89:
+            body.append(["renameFrame", mm, names[0], names[1]])
+        elif k < 0.92:
+            body.append(["delFrameByName", mm, rng.choice(names)])
+        elif k < 0.96:
+            body.append(["copyFrame", m, m2, i, e])
+        else:
+            body.append(["byPgn", mm, rng.choice(PGNS)])
+    return body
+
+
 def gen(rng, tier, shard, nshards):
     depth = 2 if tier == "quick" else 3
     k = 0
@@ -156,6 +197,9 @@ def gen(rng, tier, shard, nshards):
     for _ in range(total):
         pre, nmats, nobjs = prelude(rng.randrange(3))
         yield mkcase(pre, random_body(rng, nmats, nobjs, 40 if tier == "quick" else 60), nmats)
+    for _ in range(2 * total):
+        pre, nmats, nobjs = prelude(rng.randrange(3))
+        yield mkcase(pre, focused_body(rng, nmats, nobjs), nmats)
     for _ in range(total // 3 + 1):
         yield gen_hdr(rng)
 
